@@ -115,8 +115,9 @@ def linearize(spec, steady, params=None, user_funcs=None, t_eval=0):
                 if name in varnames:
                     d, err = d_cell(eq, name, shift)
                     max_err = max(max_err, err / (1 + abs(d)))
-                    if d != 0.0:
-                        coefs[(name, shift)] = d
+                    # structural occurrences are kept even when their derivative vanishes (0.1*x[1] + (-0.1)*x[1]):
+                    # they determine the lag/lead structure (and thereby the number of forward-looking variables)
+                    coefs[(name, shift)] = d
                 elif name in shocks and shift == 0:
                     d, err = d_shock(eq, name)
                     scoefs[name] = d
@@ -238,3 +239,32 @@ def classify(lin, gap=0.03, unit_tol=1e-8):
         "rank_condition_cond": rank_cond,
         "tokens": toks,
     }
+
+
+def linear_steady_exists(spec, params, flat):
+    """own consistency test of the linear steady-state system: unknown levels (and changes when non-flat);
+    equation e at dates 0 and 1:  sum coef*(L + C*(t+s)) + const = 0.  True iff a (not necessarily unique) solution exists."""
+    lin = linearize(spec, {q["name"]: (0.0, 0.0) for q in spec["tvars"] + spec["mvars"]}, params)
+    names = lin.tnames + lin.mnames
+    idx = {n: i for i, n in enumerate(names)}
+    n = len(names)
+    rows, rhs = [], []
+    for t in ((0,) if flat else (0, 1)):
+        for coefs, const in list(zip(lin.teq, lin.const_t)) + list(zip(lin.meq, lin.const_m)):
+            r = np.zeros(n if flat else 2 * n)
+            for (nm, s_), cf in coefs.items():
+                r[idx[nm]] += cf
+                if not flat:
+                    r[n + idx[nm]] += cf * (t + s_)
+            rows.append(r)
+            rhs.append(-const)
+    A = np.array(rows)
+    b = np.array(rhs)
+    sol = np.linalg.lstsq(A, b, rcond=None)[0]
+    res = np.max(np.abs(A @ sol - b)) if len(b) else 0.0
+    sv = np.linalg.svd(A, compute_uv=False)
+    # near-singular but consistent-by-rounding systems are not certified either
+    small = sv[sv > 1e-12 * sv.max()].min() if sv.size else 1.0
+    return bool(res <= 1e-10 * (1 + np.max(np.abs(b), initial=0))) and (small / sv.max() > 1e-9 if sv.size else True)
+
+
